@@ -97,8 +97,14 @@ class Geometry(object):
             if vs is None or any(m is None for m in ms):
                 continue
             expected = ovs[-1] + bbv + "".join(ovs[i] + ts[i] for i in range(nmods))
+            s, o, k = len(self.site), self.off, self.ovh
+            # structural boundaries of each plasmid (site / spacer / overhang / body edges), for origin placement
+            vmarks = [0, k, k + o, k + o + s, k + o + s + len(ph), k + o + 2 * s + len(ph), k + 2 * o + 2 * s + len(ph),
+                      2 * k + 2 * o + 2 * s + len(ph)]
+            mmarks = [[0, s, s + o, s + o + k, s + o + k + len(t), s + o + 2 * k + len(t), s + 2 * o + 2 * k + len(t),
+                       2 * s + 2 * o + 2 * k + len(t)] for t in ts]
             return {"vector": vs, "modules": ms, "overhangs": ovs, "targets": ts, "backbone": bbv,
-                    "placeholder": ph, "expected": expected}
+                    "placeholder": ph, "expected": expected, "marks": [vmarks] + mmarks}
         return None
 
 
